@@ -5,7 +5,7 @@
    shape) are in Merkle/Tree.v and Merkle/Ref.v; the verifiers transliterated from
    embedded/ahtree/verification.go and embedded/htree/htree.go are in Merkle/Verify.v. *)
 From V Require Import Merkle.Verify Merkle.Sound Merkle.Levels Merkle.Honest Merkle.Exact Merkle.RefEq Merkle.Main.
-From V Require Import Merkle.RefPath Merkle.HExact Merkle.AHT Merkle.AHTArith Merkle.AHTSpec Merkle.AHTInv Merkle.AHTIncl Merkle.AHTCons Merkle.ConsComplete Merkle.ConsExact Merkle.AHTMain Merkle.InclUnique Merkle.LastIncl Merkle.VerifyFixed Merkle.ConsFixed Merkle.HTree Merkle.HTreeLevels Merkle.HTreeProof.
+From V Require Import Merkle.RefPath Merkle.HExact Merkle.AHT Merkle.AHTArith Merkle.AHTSpec Merkle.AHTInv Merkle.AHTIncl Merkle.AHTCons Merkle.ConsComplete Merkle.ConsExact Merkle.AHTMain Merkle.InclUnique Merkle.LastIncl Merkle.VerifyFixed Merkle.ConsFixed Merkle.HTree Merkle.HTreeLevels Merkle.HTreeProof Merkle.AHTReopen.
 
 (* The reference tree over a non-empty list of payloads has exactly those payloads as leaves, in
    order (so `mth L` commits to L and to nothing else). *)
@@ -425,3 +425,33 @@ Theorem C08_htree_proof_verifies :
         (ht_root (ht_build H ds)) = true.
 Proof. exact htree_proof_verifies. Qed.
 Print Assumptions C08_htree_proof_verifies.
+
+(* ---- Close + Open (OpenWith re-derives size from the commit-log file and dLogSize = nodesUpto(size));
+   `aht_run2` = histories with restarts, tracking the number of commit-log entries on disk, which
+   never shrinks (ResetSize does not truncate the file) ---- *)
+
+(* A restart when the commit log holds exactly `size` entries gives back the very same state. *)
+Theorem C08_aht_reopen_same_state :
+  forall (H : bytes -> bytes) (t : aht), Inv H t -> reopen_at t (size t) = Ok t.
+Proof. exact reopen_ok. Qed.
+Print Assumptions C08_aht_reopen_same_state.
+
+(* Hence a history all of whose restarts happen at such moments (no rewind since the largest size
+   was reached) is, state for state, the history without the restarts: every C08_aht_* theorem
+   applies to it. *)
+Theorem C08_aht_restarts_invisible :
+  forall (H : bytes -> bytes) (ops : list aop2),
+    (forall pre post, ops = pre ++ Reopen2 :: post ->
+       snd (aht_run2 H pre) = size (fst (aht_run2 H pre))) ->
+    fst (aht_run2 H ops) = aht_run H (strip2 ops).
+Proof. exact aht_run2_durable. Qed.
+Print Assumptions C08_aht_restarts_invisible.
+
+(* Without that premise the statement is REFUTED (known finding "ahtree rewind not durable"), for
+   every hash function: append x5, ResetSize(2), Append, Close, Open => size 5 for 3 payloads. *)
+Theorem C08_aht_rewind_not_durable_refuted :
+  exists ops : list aop2,
+    forall H : bytes -> bytes,
+      size (fst (aht_run2 H ops)) = 5 /\ lenN (final_payloads (strip2 ops)) = 3.
+Proof. exact aht_rewind_not_durable_refuted. Qed.
+Print Assumptions C08_aht_rewind_not_durable_refuted.
